@@ -66,6 +66,9 @@ def _is_constant_expr(prog: Program, mod: Module, e: ast.AST) -> bool:
         d = dotted(e) or ""
         if d in ("np.inf", "numpy.inf", "np.float32", "np.float64", "np.nan", "np.newaxis", "math.inf", "math.pi"):
             return True
+        # a plain attribute of an external library module (np.int64, np.float32, math.e, ...): a type or constant of that library
+        if isinstance(e.value, ast.Name) and e.value.id in ("np", "numpy", "math", "sp", "scipy") and mod.imports.get(e.value.id, (None, None))[0] in ("numpy", "math", "scipy", None):
+            return True
         base = prog.resolve_expr_static(mod, e.value)
         if isinstance(base, ClassInfo):  # enum member / class attribute
             return True
